@@ -38,7 +38,12 @@ RULE = ("streams: `loop` = NoisySamplingSimulator._noisy_sampling run on every (
         "BSDistribution.sample, Clifford2017Backend.samples and one-at-a-time sample(); with BasicState + NoiseModel inputs (source path) AND custom SVDistribution inputs over all modes (distribution "
         "path: 1-5 members, vacuum member, distinguishability tags); `point-inputs` = one- and two-member SVDistributions "
         "(vacuum included) through a mode permutation with a satisfied herald: deterministic outcomes, every member drawn; "
-        "`seed` = two runs after "
+        "`history` = ONE long-lived Processor (imperfect source) through sample / reconfigure (filter up, down, to 0; input; "
+        "noise; post-selection set or cleared) / sample again, every batch (5000 samples quick, 20000 thorough) judged by "
+        "goodness-of-fit, performances, count and legality against the exact table of the configuration in force, computed from "
+        "a fresh processor; failures shrunk to [sample, operations, sample]; `seed-sizes` = every seeded entry point taking a "
+        "number of draws, run twice per draw count just below / at / above powers of ten and two up to 1e5 plus log-uniform "
+        "ones, exact equality of digests and a different draw for another seed; `seed` = two runs after "
         "pcvl.random_seed(s) agree exactly on source emission, detector outcomes, BSDistribution.sample, "
         "random_unitary, one-at-a-time sample(), probs_to_sample_count; `counts` = probs_to_sample_count with "
         "recorded random draws against the extracted rounding+repair model (incl. tiny probabilities, counts 0/1, "
@@ -244,6 +249,61 @@ def model_cost_req(rq):
 def model_req(cs, mix, F):
     return (900, [cs["m"], cs["circ"].U, mix, [[h, v] for h, v in cs["heralds"].items()],
                   remap_ps(cs["ps_tree"], cs["free"]), F, 0, [det_enc(d) for d in cs["dets"]] if any(cs["dets"]) else []])
+
+
+def exact_tables(ctx, reqs):
+    """one runner per request with a wall-clock budget each (the cost is dominated by the size of the rationals, which no
+    a-priori estimate predicts well); None for a request over budget"""
+    import subprocess
+    from concurrent.futures import ThreadPoolExecutor
+    budget = 10 if ctx.quick() else 120
+
+    def one(rq):
+        try:
+            return ctx.model.run([rq], timeout=budget, jobs=1)[0]
+        except subprocess.TimeoutExpired:
+            return None
+
+    with ThreadPoolExecutor(8) as ex:
+        return list(ex.map(one, reqs))
+
+
+def judge_batch(res, wd, table, mix, F, N):
+    """One batch of samples against the exact table of the CURRENT configuration: count, support, chi-square, performances.
+    Returns (None | (signature suffix, text), statistics)."""
+    e_phys, e_log, e_dist = un_pipe(table[1])
+    obs = Counter(tuple(s) for s in res["results"])
+    n = sum(obs.values())
+    pv, stat, df, impossible = chi_square(e_dist, obs, n)
+    r_phys, r_log = float(res["physical_perf"]), float(res["logical_perf"])
+    st = {"N": n, "chi2": stat, "df": df, "p": pv, "performances(model)": [e_phys, e_log], "performances(samples)": [r_phys, r_log],
+          "expected": sorted(e_dist.items()), "observed": sorted(obs.items())}
+    if wd is not None and wd.tripped:
+        return ("never-accepting", f"{wd.calls} iterations gave {n} of {N} samples; the model's acceptance probability is {e_phys * e_log:.4f}"), st
+    if n != N:
+        return ("count", f"{n} samples instead of {N}"), st
+    if impossible:
+        return ("impossible-outcome", f"outcome of model probability 0 sampled: {list(impossible[0])}"), st
+    if pv < LEVEL_P:
+        return ("distribution", f"chi-square p-value {pv:.3g} < 1e-9 (stat {stat:.1f}, df {df})"), st
+    if e_phys > 0 and e_log > 0:
+        n_l = n / e_log
+        tol_l = Z9 * math.sqrt(e_log * (1 - e_log) / n_l) + 2 / n_l
+        if abs(r_log - e_log) > tol_l:
+            return ("logical_perf", f"logical_perf {r_log:.5f} vs {e_log:.5f} (tolerance {tol_l:.5f})"), st
+        pre = sum(float(pq[0]) for pq in mix if sum(sum(g) for g in pq[1]) >= F)
+        q = min(e_phys / pre, 1.0) if pre > 0 else 0.0
+        n_p = n_l / q if q > 0 else 0
+        if n_p > 0:
+            tol_p = pre * (Z9 * math.sqrt(q * (1 - q) / n_p) + 2 / n_p) + 1e-9
+            # the statement only asks for an estimate of P(filter passes): an estimator that counts every shot from the
+            # un-restricted source is as good; its binomial bound is the tolerance (the code's own estimate is exact in
+            # its source-level part, hence much tighter)
+            n_all = n_l / e_phys
+            tol_p = max(tol_p, Z9 * math.sqrt(e_phys * (1 - e_phys) / n_all) + 2 / n_all)
+            if abs(r_phys - e_phys) > tol_p:
+                return ("physical_perf", f"physical_perf {r_phys:.5f} vs {e_phys:.5f} (tolerance {tol_p:.5f})"), st
+    return None, st
 
 
 def un_pipe(x):
@@ -670,6 +730,8 @@ def gof_processor(ctx, cs, out_spec, out_impl, N, tag):
         n_p = n_l / q if q > 0 else 0
         if bad is None and n_p > 0:
             tol_p = pre * (Z9 * math.sqrt(q * (1 - q) / n_p) + 2 / n_p) + 1e-9
+            n_all = n_l / e_phys         # see judge_batch
+            tol_p = max(tol_p, Z9 * math.sqrt(e_phys * (1 - e_phys) / n_all) + 2 / n_all)
             if abs(r_phys - e_phys) > tol_p:
                 bad = ("gof-physical_perf", f"physical_perf {r_phys:.5f} vs {e_phys:.5f} (tolerance {tol_p:.5f})")
     if bad is None:
@@ -788,6 +850,90 @@ def stream_seed(ctx):
             if a[k] != b[k]:
                 ctx.fail("seed-" + k, f"two runs after random_seed({seed}) differ in {k}", case, str(a[k])[:300], str(b[k])[:300])
     ctx.streams["seed"] = n
+
+
+SIZES = [1, 2, 9, 10, 11, 99, 100, 101, 999, 1000, 1001, 4095, 4096, 4097, 9999, 10000, 10001, 65535, 65536, 65537,
+         99999, 100000, 100001]
+
+
+def stream_seed_sizes(ctx):
+    """Repeatability across internal size thresholds: every seeded entry point that takes a number of draws is run twice
+    after the same random_seed for draw counts just below / at / above powers of ten and of two up to 1e5, plus a few
+    log-uniform ones; the two runs must agree exactly (compared through a digest), and another seed must give another
+    draw (non-vacuity, for counts >= 64)."""
+    import hashlib
+    import perceval as pcvl
+    from perceval.components import Source, Detector
+    from perceval.simulators._simulate_detectors import simulate_detectors_sample
+    from perceval.utils import probs_to_sample_count, probs_to_samples, sample_count_to_samples
+    rng = ctx.rng.fork("seed-sizes")
+    BS_ = pcvl.BasicState
+
+    def digest(states):
+        return hashlib.sha256("".join(str(x) for x in states).encode()).hexdigest()[:20]
+
+    table = {BS_([1, 0, 1]): 0.3, BS_([0, 2, 0]): 0.25, BS_([0, 0, 0]): 0.15, BS_([1, 1, 0]): 0.2, BS_([0, 0, 1]): 0.1}
+    counts = pcvl.BSCount({BS_([1, 0]): 7, BS_([0, 1]): 3, BS_([1, 1]): 11})
+    dets = [Detector.ppnr(3), Detector.threshold(), Detector.ppnr(2)]
+    be = pcvl.Clifford2017Backend()
+    be.set_circuit(pcvl.BS() // pcvl.PS(0.3) // pcvl.BS.Ry(0.7))
+    be.set_input_state(BS_([1, 1]))
+    noisy = dict(emission_probability=0.8, multiphoton_component=0.03, indistinguishability=0.9, losses=0.2)
+
+    entries = {
+        "BSDistribution.sample": (10 ** 6, lambda k: digest(pcvl.BSDistribution(dict(table)).sample(k, non_null=False))),
+        "BSDistribution.sample(non_null)": (10 ** 6, lambda k: digest(pcvl.BSDistribution(dict(table)).sample(k))),
+        "probs_to_samples": (10 ** 6, lambda k: digest(probs_to_samples(pcvl.BSDistribution(dict(table)), k))),
+        "sample_count_to_samples": (10 ** 6, lambda k: digest(sample_count_to_samples(counts, k))),
+        "probs_to_sample_count": (10 ** 6, lambda k: str(sorted((str(a), b) for a, b in probs_to_sample_count(pcvl.BSDistribution(dict(table)), k).items()))),
+        "Source.generate_samples": (10 ** 6, lambda k: digest(Source(**noisy).generate_samples(k, BS_([1, 0, 1]), 0))),
+        "Source.generate_samples(filter)": (10 ** 6, lambda k: digest(Source(**noisy).generate_samples(k, BS_([1, 1, 1]), 1))),
+        "Clifford2017Backend.sample": (20000 if ctx.quick() else 10 ** 6, lambda k: digest([be.sample() for _ in range(k)])),
+        "simulate_detectors_sample": (4100 if ctx.quick() else 10 ** 6, lambda k: digest([simulate_detectors_sample(BS_([3, 2, 2]), dets) for _ in range(k)])),
+    }
+    heavy = {"Source.generate_samples", "Source.generate_samples(filter)", "Clifford2017Backend.sample", "simulate_detectors_sample"}
+    n_cmp = 0
+    for name, (cap, fn) in entries.items():
+        r = rng.fork(name)
+        sizes = [k for k in SIZES if k <= cap]
+        if name in heavy and ctx.quick():
+            sizes = [k for k in sizes if k in (1, 11, 1000, 1001, 4097, 10000, 10001, 65537)]
+        extra = ctx.n(2, 12)
+        sizes += [min(int(round(10 ** (r.rint(0, 4300 if name in heavy and ctx.quick() else 5000) / 1000))), cap)
+                  for _ in range(extra)]      # log-uniform on [1, 1e5]
+        for k in sizes:
+            seed = r.rint(0, 2 ** 31 - 1)
+            case = {"entry point": name, "draws": k, "seed": seed}
+            try:
+                pcvl.random_seed(seed)
+                a = fn(k)
+                pcvl.random_seed(seed)
+                b = fn(k)
+                c = None
+                if 64 <= k <= (10001 if name in heavy else 10 ** 6) and name != "probs_to_sample_count":      # (a count table may coincide by chance)
+                    pcvl.random_seed(seed + 1)
+                    c = fn(k)
+            except Exception as e:
+                ctx.fail(f"seed-sizes-exception-{type(e).__name__}", f"{name} raised {type(e).__name__}: {e}", case)
+                continue
+            n_cmp += 1
+            ctx.case(["seed-sizes", name, k], k > 1, once("seed-sizes", k > 10000, case))
+            ctx.count("seed-sizes." + name)
+            if a != b:
+                # shrink: the smallest listed count at which the two runs differ
+                small = k
+                for kk in sorted(x for x in SIZES if x < k):
+                    pcvl.random_seed(seed)
+                    a2 = fn(kk)
+                    pcvl.random_seed(seed)
+                    if a2 != fn(kk):
+                        small = kk
+                        break
+                ctx.fail("seed-sizes-" + name, f"two runs after random_seed({seed}) differ for {k} draws of {name} "
+                         f"(smallest listed count that differs: {small})", {**case, "smallest differing count": small}, a, b)
+            elif c is not None and c == a:
+                ctx.fail("seed-sizes-vacuous-" + name, f"random_seed({seed}) and random_seed({seed + 1}) give the same {k} draws", case)
+    ctx.streams["seed-sizes"] = n_cmp
 
 
 # ------------------------------------------------------------------ stream: counts and conversions
@@ -1038,6 +1184,231 @@ def stream_point_inputs(ctx):
     ctx.streams["point-inputs"] = n
 
 
+# ------------------------------------------------------------------ stream: one long-lived processor through a history
+def apply_op(p, cs, op):
+    """apply one reconfiguration to the live processor and to the configuration record (returns the new record)"""
+    import perceval as pcvl
+    from perceval.utils import PostSelect, NoiseModel
+    cs = dict(cs)
+    kind = op[0]
+    if kind == "filter":
+        cs["flt"] = op[1]
+        p.min_detected_photons_filter(op[1])
+    elif kind == "input":
+        cs["inp"] = op[1]
+        p.with_input(pcvl.BasicState(op[1]))
+    elif kind == "noise":
+        cs["noise"] = op[1]
+        p.noise = NoiseModel(**op[1]) if op[1] else NoiseModel()
+    elif kind == "postselect":
+        cs["ps_tree"], cs["ps_str"] = op[1], op[2]
+        if op[2]:
+            p.set_postselection(PostSelect(show_ps(remap_ps(op[1], cs["free"]))))
+        else:
+            p.clear_postselection()
+    return cs
+
+
+def show_op(op, cs):
+    if op[0] == "postselect":
+        return ["postselect", show_ps(remap_ps(op[1], cs["free"])) if op[2] else None]
+    return list(op)
+
+
+def rand_op(r, cs):
+    k = r.below(8)
+    n = sum(cs["inp"])
+    if k < 4:       # the filter, up and down and to 0 (lowering is the interesting direction for stale caches)
+        cand = [v for v in range(0, n + 1) if v != cs["flt"]]
+        lower = [v for v in cand if v < cs["flt"]]
+        return ("filter", r.choice(lower) if lower and r.chance(2, 3) else r.choice(cand)) if cand else rand_op(r, cs)
+    if k < 6:
+        inp = [0] * len(cs["free"])
+        for _ in range(r.rint(1, 3)):
+            inp[r.below(len(inp))] += 1
+        if sum(inp) + sum(cs["heralds"].values()) > 3:
+            inp = [min(x, 1) for x in inp]
+        return ("input", inp) if inp != cs["inp"] else rand_op(r, cs)
+    if k == 6:
+        noise = dict(brightness=r.choice([1.0, 0.9, 0.6]), g2=0.0, indistinguishability=r.choice([1.0, 1.0, 0.9]),
+                     transmittance=r.choice([1.0, 0.8, 0.5]))
+        if noise == dict(brightness=1.0, g2=0.0, indistinguishability=1.0, transmittance=1.0):
+            noise = None
+        return ("noise", noise) if noise != cs["noise"] else rand_op(r, cs)
+    if cs["ps_str"] and r.chance(1, 2):
+        return ("postselect", [0], None)
+    t, st = rand_ps(r, len(cs["free"]))
+    return ("postselect", t, st)
+
+
+def history_expected(cs):
+    """mixture and model request of a configuration, read from a FRESH processor (independent of any history)"""
+    mix = mixture_of_svd(build_proc(cs).source_distribution)
+    F = cs["flt"] + sum(cs["heralds"].values())
+    return mix, F, model_req(cs, mix, F)
+
+
+def stream_history(ctx):
+    """One Processor object lives through a history: sample, reconfigure (filter up / down / to 0, input, noise,
+    post-selection), sample again, ...  Every batch is judged against the exact table of the configuration in force when
+    it is drawn, computed from a fresh processor."""
+    import perceval as pcvl
+    rng = ctx.rng.fork("history")
+    n_hist = ctx.n(8, 80)
+    N = 5000 if ctx.quick() else 20000
+    plans = []
+    for i in range(n_hist):
+        r = rng.fork(i)
+        cs = rand_case(r.fork("case"), mmax=3, allow_dets=r.chance(1, 3))
+        tries = 0
+        while (cs.get("svd") or not cs["noise"]) and tries < 30:          # an imperfect source: the stateful part of sampling
+            tries += 1
+            cs = rand_case(r.fork(("case", tries)), mmax=3, allow_dets=r.chance(1, 3))
+        if cs.get("svd") or not cs["noise"]:
+            continue
+        cs["noise"]["g2"] = 0.0
+        if r.chance(1, 2):
+            cs["flt"] = sum(cs["inp"])       # start high: the next filter move is down
+        cfgs, ops, cur = [cs], [], cs
+        for _ in range(r.rint(2, 4)):
+            op = rand_op(r, cur)
+            nxt = dict(cur)
+            if op[0] == "filter":
+                nxt["flt"] = op[1]
+            elif op[0] == "input":
+                nxt["inp"] = op[1]
+                nxt["flt"] = min(nxt["flt"], sum(op[1]))
+            elif op[0] == "noise":
+                nxt["noise"] = op[1]
+            else:
+                nxt["ps_tree"], nxt["ps_str"] = op[1], op[2]
+            ops.append(op)
+            cfgs.append(nxt)
+            cur = nxt
+        plans.append((cfgs, ops))
+    # exact tables of every configuration met
+    reqs, meta = [], []
+    for hi, (cfgs, ops) in enumerate(plans):
+        for j, cfg in enumerate(cfgs):
+            try:
+                mix, F, rq = history_expected(cfg)
+            except Exception as e:
+                ctx.fail(f"build-exception-{type(e).__name__}", f"building the processor raised {type(e).__name__}: {e}", describe(cfg))
+                mix, F, rq = None, None, None
+            meta.append((hi, j, mix, F))
+            reqs.append(rq)
+    outs = exact_tables(ctx, [rq for rq in reqs if rq is not None])
+    it = iter(outs)
+    tables = {}
+    for (hi, j, mix, F), rq in zip(meta, reqs):
+        tables[(hi, j)] = (next(it) if rq is not None else None, mix, F)
+
+    def usable(hi, j):
+        t, mix, F = tables[(hi, j)]
+        if t is None:
+            return False
+        ph, lg, _ = un_pipe(t[1])
+        return ph * lg >= 0.05
+
+    def sample_live(p, hi, j, seed):
+        t, mix, F = tables[(hi, j)]
+        ph, lg, _ = un_pipe(t[1])
+        wd = Watchdog(int(4 * N / (ph * lg)) + 100000)
+        pcvl.random_seed(seed)
+        res = p.samples(N, None, wd)
+        bad, st = judge_batch(res, wd, t, mix, F, N)
+        if bad is None:
+            for smp in res["results"]:
+                why = legal_sample(plans[hi][0][j], smp)
+                if why:
+                    bad = ("illegal-sample", "illegal sample returned: " + why + f" {list(smp)}")
+                    break
+        return bad, st
+
+    n_batches = 0
+    for hi, (cfgs, ops) in enumerate(plans):
+        seed0 = ctx.seed * 7000003 + hi * 101
+        trail = []
+        try:
+            p = build_proc(cfgs[0])
+            cur = cfgs[0]
+            failed = None
+            for j in range(len(cfgs)):
+                if j > 0:
+                    cur = apply_op(p, cur, ops[j - 1])
+                    trail.append(show_op(ops[j - 1], cur))
+                    if cur["flt"] != cfgs[j]["flt"]:       # an input poorer than the filter: lower the filter explicitly
+                        cur = apply_op(p, cur, ("filter", cfgs[j]["flt"]))
+                        trail.append(["filter", cfgs[j]["flt"]])
+                if not usable(hi, j):
+                    ctx.count("history.batch-skipped(acceptance<0.05 or table over budget)")
+                    continue
+                bad, st = sample_live(p, hi, j, seed0 + j)
+                trail.append(["samples", N])
+                n_batches += 1
+                ctx.count("history.batch")
+                if j > 0:
+                    ctx.count("history.after." + ops[j - 1][0] + ("-lowered" if ops[j - 1][0] == "filter" and cfgs[j]["flt"] < cfgs[j - 1]["flt"] else ""))
+                if bad:
+                    failed = (j, bad, st)
+                    break
+        except Exception as e:
+            ctx.case(["history", hi], True, None)
+            ctx.fail(f"history-exception-{type(e).__name__}", f"raised {type(e).__name__}: {e}",
+                     {"start": describe(cfgs[0]), "operations": trail})
+            continue
+        case = {"start": describe(cfgs[0]), "operations": list(trail)}
+        ctx.case(["history", describe(cfgs[0]), [show_op(o, cfgs[0]) for o in ops]], True,
+                 once("history", failed is None and len(trail) >= 4, {"stream": "history", **case}))
+        if failed is None:
+            continue
+        j, (suffix, what), st = failed
+        # shrink: is a fresh processor at the failing configuration wrong too? else the shortest tail of the history that
+        # still fails: fresh processor at configuration i, one batch, operations i+1..j without sampling, one batch
+        try:
+            b0, st0 = sample_live(build_proc(cfgs[j]), hi, j, seed0 + 50)
+        except Exception as e:
+            b0, st0 = ("exception", str(e)), {}
+        if b0:
+            ctx.fail("gof-" + b0[0], "a FRESH processor at this configuration fails as well: " + b0[1],
+                     {"configuration": describe(cfgs[j]), **{k: st0.get(k) for k in ("N", "chi2", "df", "p", "expected", "observed")}},
+                     st0.get("performances(model)"), st0.get("performances(samples)"))
+            continue
+        shrunk = None
+        for i in range(j - 1, -1, -1):
+            if not usable(hi, i):
+                continue
+            try:
+                q = build_proc(cfgs[i])
+                cur = cfgs[i]
+                sample_live(q, hi, i, seed0 + 60 + i)
+                tr = [["samples", N]]
+                for k in range(i + 1, j + 1):
+                    cur = apply_op(q, cur, ops[k - 1])
+                    tr.append(show_op(ops[k - 1], cur))
+                    if cur["flt"] != cfgs[k]["flt"]:
+                        cur = apply_op(q, cur, ("filter", cfgs[k]["flt"]))
+                        tr.append(["filter", cfgs[k]["flt"]])
+                b1, st1 = sample_live(q, hi, j, seed0 + 80 + i)
+                tr.append(["samples", N])
+            except Exception as e:
+                b1, st1 = ("exception", str(e)), {}
+            if b1:
+                shrunk = (i, tr, b1, st1)
+                break
+        if shrunk:
+            i, tr, (suffix, what), st = shrunk
+            case = {"start": describe(cfgs[i]), "operations": tr}
+        last_cfg_op = next((o[0] for o in reversed(case["operations"][:-1]) if o[0] != "samples"), "none")
+        ctx.fail(f"history-{suffix}-after-{last_cfg_op}",
+                 "a batch drawn from a long-lived processor does not follow the configuration in force (a fresh processor at the same "
+                 "configuration does): " + what,
+                 {**case, "configuration at the failing batch": describe(cfgs[j]),
+                  **{k: st.get(k) for k in ("N", "chi2", "df", "p", "expected", "observed")}},
+                 st.get("performances(model)"), st.get("performances(samples)"))
+    ctx.streams["history"] = n_batches
+
+
 # ------------------------------------------------------------------ witnesses of the design round
 def witness_checks(ctx):
     """Regression guards: the witnesses of the three defects repaired in /repo (5caa1a68, 96b1fd83, 869f2c44) —
@@ -1107,13 +1478,16 @@ def run(ctx):
     stream_counts(ctx)
     ctx.log("counts stream done")
     stream_seed(ctx)
-    ctx.log("seed stream done")
+    stream_seed_sizes(ctx)
+    ctx.log("seed streams done")
     witness_checks(ctx)
     stream_point_inputs(ctx)
     ctx.log("point-input stream done")
+    stream_history(ctx)
+    ctx.log("history stream done")
 
     # random processors: the model gives acceptance probabilities (to avoid unbounded loops) and exact tables
-    n_b, n_g = ctx.n(5, 40), ctx.n(22, 200)
+    n_b, n_g = ctx.n(5, 40), ctx.n(14, 200)
     cases = [rand_case(rng.fork(("case", i))) for i in range(n_b + n_g)]
     reqs, pend = [], []
     for cs in cases:
@@ -1130,18 +1504,7 @@ def run(ctx):
         pend.append((cs, mix, len(reqs) - (2 if hp else 1), len(reqs) - 1))
     # exact tables, one runner per request and a wall-clock budget each: the cost is dominated by the size of the
     # rationals (generic unitary blocks), which no a-priori estimate predicts well; a configuration over budget is dropped
-    import subprocess
-    from concurrent.futures import ThreadPoolExecutor
-    budget = 10 if ctx.quick() else 120
-
-    def one(rq):
-        try:
-            return ctx.model.run([rq], timeout=budget, jobs=1)[0]
-        except subprocess.TimeoutExpired:
-            return None
-
-    with ThreadPoolExecutor(8) as ex:
-        outs = list(ex.map(one, reqs))
+    outs = exact_tables(ctx, reqs)
     ctx.log(f"model tables done ({len(reqs)} requests, {sum(o is None for o in outs)} over budget)")
     ready = []
     for cs, mix, i_spec, i_old in pend:
@@ -1166,14 +1529,21 @@ def run(ctx):
         a = [un_pipe(o[1])[0] * un_pipe(o[1])[1] for o in (o_spec, o_impl)]
         return min(a)
 
-    b_cases = [(cs, acceptance(o_spec, o_impl)) for cs, o_spec, o_impl in ready[:n_b]]
+    # a configuration in which NO input member holds filter + herald photons is outside the domain of the pipeline theorem
+    # (pre_phys = 0) and of the sampler (it raises "No state to sample from" / loops): not sampled, counted
+    b_cases = []
+    for cs, o_spec, o_impl in ready[:n_b]:
+        if not o_spec[3]:
+            ctx.count("bounds.skipped-no-input-reaches-the-filter")
+            continue
+        b_cases.append((cs, acceptance(o_spec, o_impl)))
     stream_bounds(ctx, b_cases)
     ctx.log("bounds stream done")
     N = 20000
     done = 0
     for tag, (cs, o_spec, o_impl) in enumerate(ready[n_b:]):
-        if acceptance(o_spec, o_impl) < 0.03:
-            ctx.count("gof.skipped-acceptance-below-0.03")
+        if acceptance(o_spec, o_impl) < 0.06:
+            ctx.count("gof.skipped-acceptance-below-0.06")
             continue
         gof_processor(ctx, cs, o_spec, o_impl, N, tag)
         done += 1
